@@ -32,14 +32,14 @@ func TestVerifC06(t *testing.T) {
 	// capacity exactly the size of the result, ending at an inaccessible page. A Seal that writes more than
 	// len(plaintext)+tagSize bytes (a full 16-byte tag that is cut afterwards) faults here - in the rest of the check the
 	// same write would land in some other heap object, possibly the model's, and nothing seen afterwards could be trusted.
-	for _, asm := range paths() {
+	for _, asm := range zvPaths() {
 		bad := false
-		withAsm(asm, func() {
-			pn := pathName(asm)
+		zvWithAsm(asm, func() {
+			pn := zvPathName(asm)
 			key := rng.Bytes(16)
 			g := ref.NewGCM(key)
 			for tag := 12; tag <= 16; tag++ {
-				a, err := newAEAD(key, 12, tag)
+				a, err := zvNewAEAD(key, 12, tag)
 				if err != nil {
 					continue
 				}
@@ -61,14 +61,14 @@ func TestVerifC06(t *testing.T) {
 			return // the path writes outside its destination: the heap of this process is not to be trusted any further
 		}
 	}
-	cases := gcmCases(rng, hk.N(1, 2))
-	cases = append(cases, wrapCases(rng, hk.N(80, 300))...)
+	cases := zvGcmCases(rng, hk.N(1, 2))
+	cases = append(cases, zvWrapCases(rng, hk.N(80, 300))...)
 	// lengths whose BIT length needs more than 24 bits (exercises the upper bytes of the length block)
 	big := 1 << 21
-	cases = append(cases, &gcmCase{key: rng.Bytes(16), nonce: rng.Bytes(12), aad: rng.Bytes(big + 5), pt: rng.Bytes(16), tag: 16, label: "large-aad"})
-	cases = append(cases, &gcmCase{key: rng.Bytes(16), nonce: rng.Bytes(12), aad: rng.Bytes(3), pt: rng.Bytes(big + 3), tag: 16, label: "large-pt"})
+	cases = append(cases, &zvGcmCase{key: rng.Bytes(16), nonce: rng.Bytes(12), aad: rng.Bytes(big + 5), pt: rng.Bytes(16), tag: 16, label: "large-aad"})
+	cases = append(cases, &zvGcmCase{key: rng.Bytes(16), nonce: rng.Bytes(12), aad: rng.Bytes(3), pt: rng.Bytes(big + 3), tag: 16, label: "large-pt"})
 	if hk.Thorough() {
-		cases = append(cases, &gcmCase{key: rng.Bytes(16), nonce: rng.Bytes(13), aad: rng.Bytes(1<<24 + 1), pt: rng.Bytes(1<<24 + 17), tag: 16, label: "large-aad"})
+		cases = append(cases, &zvGcmCase{key: rng.Bytes(16), nonce: rng.Bytes(13), aad: rng.Bytes(1<<24 + 1), pt: rng.Bytes(1<<24 + 17), tag: 16, label: "large-aad"})
 	}
 	// the OpenSSL fixtures, replayed against the implementation directly
 	kats, err := ref.LoadGCM()
@@ -77,7 +77,7 @@ func TestVerifC06(t *testing.T) {
 		return
 	}
 	for i, k := range kats {
-		cases = append(cases, &gcmCase{key: hk.Unhex(k.Key), nonce: hk.Unhex(k.Nonce), aad: hk.Unhex(k.Aad), pt: hk.Unhex(k.Pt), tag: len(k.Tag) / 2, label: fmt.Sprintf("openssl-kat-%d:%s", i, k.Ct+k.Tag)})
+		cases = append(cases, &zvGcmCase{key: hk.Unhex(k.Key), nonce: hk.Unhex(k.Nonce), aad: hk.Unhex(k.Aad), pt: hk.Unhex(k.Pt), tag: len(k.Tag) / 2, label: fmt.Sprintf("openssl-kat-%d:%s", i, k.Ct+k.Tag)})
 	}
 	r.Note("cases", len(cases))
 	r.Sample(hk.D{"label": cases[10].label, "lens": cases[10].detail()["lens"], "key": hk.Hex(cases[10].key), "nonce": hk.Hex(cases[10].nonce)})
@@ -100,26 +100,47 @@ func TestVerifC06(t *testing.T) {
 
 	// long-lived objects: ONE Block / AEAD per family serves a random sequence of messages of all
 	// length classes, each compared with the model (state must not leak from call to call)
-	for _, asm := range paths() {
+	for _, asm := range zvPaths() {
 		asm := asm
-		withAsm(asm, func() {
-			pn := pathName(asm)
+		zvWithAsm(asm, func() {
+			pn := zvPathName(asm)
 			for fam := 0; fam < 6; fam++ {
 				nl, tag := []int{12, 12, 12, 17, 129, 1}[fam], []int{16, 12, 14, 16, 16, 16}[fam]
 				key := rng.Bytes(16)
-				a, err := newAEAD(key, nl, tag)
+				blk, berr := NewCipher(key)
+				if berr != nil {
+					continue
+				}
+				a, err := zvNewAEADFromBlock(blk, nl, tag)
 				if err != nil {
 					continue
 				}
 				g := ref.NewGCM(key)
+				refBlk := ref.NewSM4Block(key)
 				for step := 0; step < hk.N(150, 1500); step++ {
+					// the Block the AEAD was made from stays in use as a block cipher in between (a key-wrap, a CMAC, a
+					// single-block decryption with the same key): sealing must not depend on what the Block was last asked to do
+					if step%4 == 1 || step%7 == 3 {
+						in, out, want := rng.Bytes(16), make([]byte, 16), make([]byte, 16)
+						if step%4 == 1 {
+							blk.Decrypt(out, in)
+							refBlk.Decrypt(want, in)
+						} else {
+							blk.Encrypt(out, in)
+							refBlk.Encrypt(want, in)
+						}
+						if !bytes.Equal(out, want) {
+							r.Violation(fmt.Sprintf("block-wrong-between-seals:%s:long-lived-aead", pn), hk.D{"step": step, "key": hk.Hex(key), "block": hk.Hex(in), "decrypt": step%4 == 1})
+							break
+						}
+					}
 					nonce := rng.Bytes(nl)
-					aad := rng.Bytes(rng.Pick(lenClasses[:20]))
-					pt := rng.Bytes(rng.Pick(lenClasses))
+					aad := rng.Bytes(rng.Pick(zvLenClasses[:20]))
+					pt := rng.Bytes(rng.Pick(zvLenClasses))
 					want := g.Seal(nonce, pt, aad, tag)
 					got := a.Seal(nil, nonce, pt, aad)
 					if !bytes.Equal(got, want) {
-						r.Violation(fmt.Sprintf("seal-differs-from-sp800-38d:%s:long-lived-aead", pn), hk.D{"step": step, "key": hk.Hex(key), "nonce": hk.Hex(nonce), "aad": clip(aad), "pt": clip(pt), "tag_size": tag})
+						r.Violation(fmt.Sprintf("seal-differs-from-sp800-38d:%s:long-lived-aead", pn), hk.D{"step": step, "key": hk.Hex(key), "nonce": hk.Hex(nonce), "aad": zvClip(aad), "pt": zvClip(pt), "tag_size": tag})
 						break
 					}
 					if step%3 == 0 {
@@ -134,7 +155,7 @@ func TestVerifC06(t *testing.T) {
 				// a nonce whose length is NOT the AEAD's NonceSize (shorter or longer, cut from a buffer with spare capacity):
 				// the standard library's generic mode over a portable cipher refuses the call (it panics); the outcome must
 				// not depend on the path, so this path must refuse it too - not seal under a truncated or extended nonce
-				if std, err := newAEADFromBlock(ref.NewSM4Block(key), nl, tag); err == nil {
+				if std, err := zvNewAEADFromBlock(ref.NewSM4Block(key), nl, tag); err == nil {
 					buf := rng.Bytes(nl + 40)
 					pt := rng.Bytes(21)
 					for _, wl := range []int{nl - 1, nl + 1, nl + 4, nl / 2, nl + 16} {
@@ -172,34 +193,34 @@ func TestVerifC06(t *testing.T) {
 		huge := make([]byte, zeros+len(tail))
 		copy(huge[zeros:], tail)
 		want := ref.NewGCM(key).SealZeroPrefixedAAD(nonce, pt, zeros, tail, 16)
-		for _, asm := range paths() {
+		for _, asm := range zvPaths() {
 			asm := asm
 			if !asm && !hk.Thorough() {
 				continue // the std-lib generic path needs seconds for 512 MiB; thorough only
 			}
-			withAsm(asm, func() {
-				a, err := newAEAD(key, 12, 16)
+			zvWithAsm(asm, func() {
+				a, err := zvNewAEAD(key, 12, 16)
 				if err != nil {
 					return
 				}
 				got := a.Seal(nil, nonce, pt, huge)
 				if !bytes.Equal(got, want) {
-					r.Violation(fmt.Sprintf("seal-differs-from-sp800-38d:%s:aad>=2^29-bytes", pathName(asm)), hk.D{"key": hk.Hex(key), "nonce": hk.Hex(nonce), "aad": "0^(2^29) || " + hk.Hex(tail), "pt": hk.Hex(pt), "got": hk.Hex(got), "want": hk.Hex(want)})
+					r.Violation(fmt.Sprintf("seal-differs-from-sp800-38d:%s:aad>=2^29-bytes", zvPathName(asm)), hk.D{"key": hk.Hex(key), "nonce": hk.Hex(nonce), "aad": "0^(2^29) || " + hk.Hex(tail), "pt": hk.Hex(pt), "got": hk.Hex(got), "want": hk.Hex(want)})
 				}
 				// and the forgery this would enable: the short-aad message must not open under the long aad
 				short := ref.NewGCM(key).Seal(nonce, pt, tail, 16)
 				if _, err := a.Open(nil, nonce, short, huge); err == nil {
-					r.Violation(fmt.Sprintf("open-accepts-message-under-zero-prefixed-aad:%s", pathName(asm)), hk.D{"key": hk.Hex(key)})
+					r.Violation(fmt.Sprintf("open-accepts-message-under-zero-prefixed-aad:%s", zvPathName(asm)), hk.D{"key": hk.Hex(key)})
 				}
-				r.Eval(pathName(asm) + "|aad>=2^29-bytes")
+				r.Eval(zvPathName(asm) + "|aad>=2^29-bytes")
 			})
 		}
 	}
 	// NONCES of 2^31+12, 2^32+12, 2^32+13 bytes (and 2^24+12): the length that selects the 96-bit derivation is
 	// compared at full width only if nobody narrows it. All-zero nonces (an untouched zero mapping, optionally a
 	// short non-zero tail) have an exact O(1) oracle: zero blocks keep the GHASH state at zero.
-	if asmDetected {
-		withAsm(true, func() {
+	if zvAsmDetected {
+		zvWithAsm(true, func() {
 			big := hk.ZeroMap(1<<32+1<<18, true)
 			if big == nil {
 				r.Inconclusive("c06: cannot map 4 GiB for the giant nonces")
@@ -239,17 +260,17 @@ func TestVerifC06(t *testing.T) {
 				for i := range tail {
 					big[int(zeros)+i] = 0
 				}
-				r.Eval(fmt.Sprintf("asm|giant-nonce|2^%d+%d", bitlenInt(nl)-1, nl-1<<uint(bitlenInt(nl)-1)))
+				r.Eval(fmt.Sprintf("asm|giant-nonce|2^%d+%d", zvBitlenInt(nl)-1, nl-1<<uint(zvBitlenInt(nl)-1)))
 			}
 		})
 	}
 	// ONE AEAD shared by all workers sealing different messages at the same time
-	for _, asm := range paths() {
+	for _, asm := range zvPaths() {
 		asm := asm
-		withAsm(asm, func() {
-			pn := pathName(asm)
+		zvWithAsm(asm, func() {
+			pn := zvPathName(asm)
 			key := rng.Bytes(16)
-			a, err := newAEAD(key, 13, 16)
+			a, err := zvNewAEAD(key, 13, 16)
 			if err != nil {
 				return
 			}
@@ -270,7 +291,7 @@ func TestVerifC06(t *testing.T) {
 			})
 			r.EvalN(pn+"|shared-aead-concurrent", len(jobs))
 			// object lifetimes: an AEAD must keep sealing correctly after sibling AEADs / its Block were collected
-			lifetimeHistories(r, rng, pn, hk.N(4, 24), false, false, true)
+			zvLifetimeHistories(r, rng, pn, hk.N(4, 24), false, false, true)
 			// the caller's KEY BUFFER is reused: overwritten in place with key after key (and with an earlier key again);
 			// every cipher built from it must be the cipher of the bytes it held at that moment
 			{
@@ -279,7 +300,7 @@ func TestVerifC06(t *testing.T) {
 				for step := 0; step < hk.N(40, 400); step++ {
 					k := ks[rng.Intn(len(ks))]
 					copy(kbuf, k)
-					a, err := newAEAD(kbuf, 12, 16)
+					a, err := zvNewAEAD(kbuf, 12, 16)
 					if err != nil {
 						r.Violation("cannot-construct-aead:"+pn, hk.D{"err": err.Error()})
 						continue
@@ -295,10 +316,10 @@ func TestVerifC06(t *testing.T) {
 			}
 		})
 	}
-	for _, asm := range paths() {
+	for _, asm := range zvPaths() {
 		asm := asm
-		withAsm(asm, func() {
-			pn := pathName(asm)
+		zvWithAsm(asm, func() {
+			pn := zvPathName(asm)
 			hk.Parallel(len(cases), func(i int) {
 				if !hk.InShard(i) {
 					return
@@ -313,8 +334,8 @@ func TestVerifC06(t *testing.T) {
 						return
 					}
 				}
-				aead, err := newAEAD(c.key, len(c.nonce), c.tag)
-				if err == errComboUnreachable {
+				aead, err := zvNewAEAD(c.key, len(c.nonce), c.tag)
+				if err == zvErrComboUnreachable {
 					r.Class("trivial:nonce-x-tag-not-offered-on-this-path")
 					return
 				}
@@ -340,7 +361,7 @@ func TestVerifC06(t *testing.T) {
 					r.Violation(fmt.Sprintf("seal-panics:%s:%s", pn, lab), d)
 				} else if !bytes.Equal(got, want) {
 					d := c.detail()
-					d["got"], d["want"] = clip(got), clip(want)
+					d["got"], d["want"] = zvClip(got), zvClip(want)
 					where := "tag"
 					if len(got) != len(want) {
 						where = "length"
@@ -388,12 +409,12 @@ func TestVerifC06(t *testing.T) {
 					p2, msg2, _, _ := hk.Try(func() { got2 = aead.Seal(dst, c.nonce, pt, c.aad) })
 					if p2 || len(got2) != pre+len(want) || !bytes.Equal(got2[:pre], keep) || !bytes.Equal(got2[pre:], want) {
 						d := c.detail()
-						d["panic"], d["dst_shape"], d["dst_len"], d["returned"] = msg2, []string{"exact-room", "ample-room", "too-little-room", "in-place", "in-place-without-room-for-the-tag"}[shape], pre, clip(got2)
+						d["panic"], d["dst_shape"], d["dst_len"], d["returned"] = msg2, []string{"exact-room", "ample-room", "too-little-room", "in-place", "in-place-without-room-for-the-tag"}[shape], pre, zvClip(got2)
 						r.Violation(fmt.Sprintf("seal-into-dst-differs-from-sp800-38d:%s:%s", pn, lab), d)
 					}
 				}
 				if lab == "counter-wrap" {
-					r.Eval(pn + "|" + c.label + "|pt[" + kernelClass(len(c.pt)) + "]")
+					r.Eval(pn + "|" + c.label + "|pt[" + zvKernelClass(len(c.pt)) + "]")
 					r.Count("wrap_positions_"+pn, 1)
 				} else {
 					r.Eval(pn + "|" + cls)
@@ -403,7 +424,7 @@ func TestVerifC06(t *testing.T) {
 	}
 }
 
-func bitlenInt(v int) int {
+func zvBitlenInt(v int) int {
 	n := 0
 	for ; v > 0; v >>= 1 {
 		n++
